@@ -501,6 +501,10 @@ func c02Store(p *Prog, r *Report) {
 	selectorTruthTable(p, r, "R12")
 	hashKeyRule(p, r, "R13")
 	deleteStageTable(p, r, "R14")
+	r.Rule("R15", "the filters of a received command reach the store whatever its classifier (reply as well as notify and write): ProcessCmd extracts them from the command without a condition on the classifier and hands the feature exactly that pair (partial as partial, delete as delete)")
+	c02FiltersExtracted(p, r, "R15")
+	r.Rule("R16", "a partial update keeps what it does not mention: the helper that fills the replacement item from the existing one sets every valid, settable field that is nil in the update, on every path of its per-field iteration and whatever the field's kind (shared with C04-R4b)")
+	c02CarryOver(p, r, "R16")
 	r.Rule("R8", "in FunctionData.UpdateData every store to the data field is either guarded by both filters being nil (replace path) or happens after the Updater.UpdateList call under its success (merge path)")
 	var fns []*ssa.Function
 	for _, f := range p.RepoFns("spine") {
@@ -761,4 +765,136 @@ func comparatorRule(p *Prog, r *Report, rule string) {
 		r.Check(rule, base+"|less|ties", okTrue, p.Pos(less.Pos()), "every return that can yield true is dominated by the comparison of the key values (equal keys and incomparable items yield false)")
 	}
 	r.Floor(rule, "sort comparators", n, 1)
+}
+
+// c02FiltersExtracted: the restricted-exchange filters of a received command
+// reach the store whatever the classifier: in ProcessCmd the filters are
+// extracted from the command unconditionally with respect to the classifier, and
+// the message handed to the feature carries exactly the extracted pair.
+func c02FiltersExtracted(p *Prog, r *Report, rule string) {
+	ib := newInbound(p)
+	if ib.processCmd == nil {
+		r.Undecided(rule, "anchor:ProcessCmd", "", "inbound dispatcher not found")
+		return
+	}
+	fn := ib.processCmd
+	n := 0
+	p.InScope(fn, func() {
+		forEachCall(fn, func(site ssa.CallInstruction) {
+			c, ok := site.(*ssa.Call)
+			if !ok || !staticCallee(&c.Call, repoMod+"/model", "CmdType", "ExtractFilter") {
+				return
+			}
+			n++
+			bad := ""
+			for _, g := range Guards(c.Block()) {
+				var ops []ssa.Value
+				if bo, isB := g.Cond.(*ssa.BinOp); isB {
+					if _, _, isNil := nilTest(bo); isNil {
+						continue // "a classifier is present at all" is no distinction between classifiers
+					}
+					ops = []ssa.Value{bo.X, bo.Y}
+				}
+				for _, o := range ops {
+					if isNamed(o.Type(), "model", "CmdClassifierType") {
+						bad = "the extraction is conditioned on the classifier (" + guardDesc([]Guard{g}) + ")"
+					}
+				}
+			}
+			// reachable for every classifier whose handler consumes the filters
+			for _, cls := range []string{"reply", "notify", "write"} {
+				reach := reachableUnder(c.Parent(), c, func(cond ssa.Value) (bool, bool) {
+					bo, isB := cond.(*ssa.BinOp)
+					if !isB || (bo.Op != token.EQL && bo.Op != token.NEQ) {
+						return false, false
+					}
+					x, y := bo.X, bo.Y
+					if _, isK := constString(x); isK {
+						x, y = y, x
+					}
+					s, isK := constString(y)
+					if !isK || !isNamed(x.Type(), "model", "CmdClassifierType") {
+						return false, false
+					}
+					return true, (s == cls) == (bo.Op == token.EQL)
+				})
+				if !reach {
+					bad = "the filters of a " + cls + " are not extracted"
+				}
+			}
+			// the message given to the handler carries the extracted filters
+			wired := map[string]bool{}
+			if c.Referrers() != nil {
+				for _, ref := range *c.Referrers() {
+					ex, isEx := ref.(*ssa.Extract)
+					if !isEx {
+						continue
+					}
+					t := forwardTaint(ex)
+					for _, sf := range p.ScopeFns(fn) {
+						for _, b := range sf.Blocks {
+							for _, ins := range b.Instrs {
+								st, isSt := ins.(*ssa.Store)
+								if !isSt || !t[st.Val] {
+									continue
+								}
+								if fa, isFA := st.Addr.(*ssa.FieldAddr); isFA && fieldOfAddr(fa) != nil && isNamed(derefType(fa.X.Type()), "api", "Message") {
+									wired[fmt.Sprintf("%d->%s", ex.Index, fieldOfAddr(fa).Name())] = true
+								}
+							}
+						}
+					}
+				}
+			}
+			okWire := wired["0->FilterPartial"] && wired["1->FilterDelete"] && len(wired) == 2
+			r.Check(rule, FnName(fn)+"|filters-extracted", bad == "" && okWire, p.InstrPos(c), fmt.Sprintf("%s; extracted pair stored as %v (required: result 0 as FilterPartial, result 1 as FilterDelete)", orStr(bad, "extraction independent of the classifier"), sortedKeys(wired)))
+		})
+	})
+	r.Floor(rule, "filter extractions in ProcessCmd", n, 1)
+}
+
+// c02CarryOver: a partial update keeps what it does not mention — the helper that
+// fills the replacement item from the existing one sets every valid, settable
+// field that is nil in the update, on every path of its per-field iteration and
+// whatever the field's kind (shared with C04-R4b).
+func c02CarryOver(p *Prog, r *Report, rule string) {
+	o := BuildOwnership(p, "model", "spine", "util")
+	n := 0
+	seen := map[*ssa.Function]bool{}
+	for _, fn := range p.RepoFns("model") {
+		og := originOf(fn)
+		if seen[og] || !reflectiveWriter(o, fn) || !usesWriteCheckTag(fn) || remoteWriteParam(fn) == nil {
+			continue
+		}
+		seen[og] = true
+		var setCall *ssa.Call
+		t := o.reflectTaint(fn)
+		forEachCall(fn, func(site ssa.CallInstruction) {
+			if c, ok := site.(*ssa.Call); ok {
+				if callee := c.Call.StaticCallee(); callee != nil && fnPkgPath(callee) == "reflect" && callee.Name() == "Set" {
+					if _, ok := t[c.Call.Args[0]]; ok {
+						setCall = c
+					}
+				}
+			}
+		})
+		if setCall == nil {
+			r.Undecided(rule, FnName(og)+"|set", p.Pos(fn.Pos()), "reflective Set not found")
+			continue
+		}
+		n++
+		esc := mustPassInIteration(setCall, func(c ssa.Value) (bool, bool) {
+			if x, ok := c.(*ssa.Call); ok {
+				if callee := x.Call.StaticCallee(); callee != nil && fnPkgPath(callee) == "reflect" {
+					switch callee.Name() {
+					case "IsValid", "CanSet", "IsNil":
+						return true, true
+					}
+				}
+			}
+			return false, false
+		})
+		r.Check(rule, FnName(og)+"|carries-over-unmentioned-fields", esc == "", p.InstrPos(setCall), "a valid, settable field that is nil in the update is filled from the existing item on every path of the iteration, whatever its kind (pointer, list, map); "+esc)
+	}
+	r.Floor(rule, "tag-aware mutators", n, 1)
 }
